@@ -1,5 +1,6 @@
 """C09 Snapshots capture exactly the state at their position, in every serializer mode."""
 import io
+import sys
 import gzip
 import pickle as _pickle
 
@@ -12,7 +13,7 @@ from .. import fs as simfs
 
 PROP = 'C09'
 LEVEL = 'exploration'
-OWN = ('snapshot_state_mismatch', 'snapshot_position_mismatch', 'dump_not_decodable', 'dump_foreign', 'failed_load_acknowledged',
+OWN = ('snapshot_state_mismatch', 'snapshot_position_mismatch', 'dump_not_decodable', 'dump_foreign', 'failed_load_acknowledged', 'received_snapshot_corrupt',
        'lagging_node_not_caught_up', 'log_empty', 'loaded_state_mismatch')
 INVARIANTS = OWN + ('state_mismatch', 'applied_back')
 for _i in OWN:
@@ -262,6 +263,12 @@ def wrap_deserialize():
                 w.oracle.load_failed[w.cur] = w.evno
                 w.oracle.load_failed_pending[w.cur] = True
                 w.probe('snapshot_deserialize_failed')
+                h = w.hosts[w.cur]
+                if h.node is not None and not h.doomed and getattr(h.node, '_vsim_started', True):
+                    # a snapshot whose last chunk has arrived (or the node's own dump) must decode: transfers may be
+                    # interrupted and restarted, but what is finally assembled is one complete snapshot of the sender
+                    w.oracle.flag('received_snapshot_corrupt', 'host %d: a completely received snapshot (or its own dump) could not be decoded: %s' % (
+                        w.cur, repr(sys.exc_info()[1])[:120]))
             raise
     M.sr.Serializer.deserialize = deserialize
     _wrapped['x'] = True
@@ -304,6 +311,8 @@ class C09Spec(c01.C01Spec):
         s['w_stall'] = rng.choice([0.0, 0.02])
         s['w_sub'] = rng.choice([0.35, 0.8])
         conf['connectionRetryTime'] = rng.choice([0, 0, 0.5])
+        if conf['useFork']:
+            s['w_childkill'] = rng.choice([0.0, 0.02, 0.1])
         if conf['journal']:
             s['w_kill'] = rng.choice([0.005, 0.02])
             s['w_killop'] = rng.choice([0.0, 0.02])
